@@ -11,7 +11,8 @@ Open Scope string_scope.
 
 (** certified functions: (grammar function, documented nonterminal) *)
 Definition comp_functions : list (string * string) :=
-  [ ("value", "Value"); ("inner_value", "InnerValue"); ("simple_value", "SimpleValue");
+  [ ("source_file", "SourceFile"); ("statement_list_TopLevel", "StatementList");
+    ("value", "Value"); ("inner_value", "InnerValue"); ("simple_value", "SimpleValue");
     ("integer", "Integer"); ("string", "String"); ("code", "Code"); ("boolean", "Boolean"); ("uninitialized", "Uninitialized");
     ("bits", "Bits"); ("list", "List"); ("dag", "Dag"); ("dagarg", "DagArg");
     ("identifier", "Identifier"); ("class_id", "ClassId"); ("identifier_or_class_value", "ClassValue");
@@ -28,13 +29,46 @@ Definition comp_functions : list (string * string) :=
     ("foreach_iterator", "ForeachIterator"); ("foreach_iterator_init", "ForeachIteratorInit");
     ("template_arg_list", "TemplateArgList"); ("template_arg_decl", "TemplateArgDecl"); ("record_body", "RecordBody");
     ("parent_class_list", "ParentClassList"); ("class_ref", "ClassRef"); ("body", "Body"); ("body_item", "BodyItem");
-    ("field_def", "FieldDef"); ("field_let", "FieldLet"); ("name_value", "NameValue") ].
+    ("field_def", "FieldDef"); ("field_let", "FieldLet"); ("name_value", "NameValue"); ("if", "If") ].
 (** certified, but their callers execute them inline (their callers' residuals are not headed by these nonterminals) *)
 Definition comp_inline_names : list string :=
   ["integer"; "identifier_or_class_value"; "string"; "code"; "boolean"; "uninitialized"; "identifier"; "class_id"].
-(** the rule of If is emptied: `if c then if d then X else Y` makes the documented grammar ambiguous (dangling else), so
-    "the function consumes exactly a word of If whatever follows" is false for the follower `else` *)
-Definition comp_blanked_names : list string := ["If"].
+(** The documented rule of If is RESTRICTED: `if c then if d then X else Y` makes the documented grammar ambiguous (dangling
+    else), so "the function consumes exactly a word of If whatever follows" is false for the follower `else`.  In
+    [comp_grammar] an `else` may follow a then-branch only when that branch is a block or a CLOSED statement (one that cannot
+    end in an else-less `if`): def, class, defm, defvar, dump, assert, include, defset, multiclass, let / foreach with a block
+    body.  Three nonterminals are appended for this; every word of [comp_grammar] is a
+    word of the documented grammar ([comp_grammar_sub], by the validated inclusion test [sub_grammar_ok]). *)
+Definition nt_of (s : string) : nat := match nt_index s with Some n => n | None => 0 end.
+Definition comp_base : nat := List.length doc_rules_must.
+Definition n_closed : nat := comp_base.
+Definition n_let_c : nat := 1 + comp_base.
+Definition n_foreach_c : nat := 2 + comp_base.
+Definition comp_extra_names : list string := ["ClosedStatement"; "LetBlock"; "ForeachBlock"].
+Definition comp_nt_names : list string := doc_nt_names ++ comp_extra_names.
+Definition comp_phi (n : nat) : nat :=
+  if Nat.ltb n comp_base then n else nth (n - comp_base) [nt_of "Statement"; nt_of "Let"; nt_of "Foreach"] 0.
+Definition closed_names : list string := ["Def"; "Class"; "Defm"; "Defvar"; "Dump"; "Assert"; "Include"; "Defset"; "MultiClass"].
+Definition closed_rule : rx :=
+  fold_right (fun s acc => match nt_index s with Some n => RAlt (RSym (DNT n)) acc | None => acc end)
+             (RAlt (RSym (DNT n_let_c)) (RSym (DNT n_foreach_c))) closed_names.
+Definition if_restrict (r : rx) : rx :=
+  match r with
+  | RSeq i (RSeq v (RSeq t (RSeq (RAlt blk st) e))) => RSeq i (RSeq v (RSeq t (RAlt (RSeq blk e) (RAlt (RSeq (RSym (DNT n_closed)) e) st))))
+  | _ => RNone
+  end.
+Definition block_body (r : rx) : rx :=          (* let / foreach with a block body *)
+  match r with
+  | RSeq a (RSeq b (RSeq c (RAlt blk st))) => RSeq a (RSeq b (RSeq c blk))
+  | _ => RNone
+  end.
+Definition rule_of (s : string) : rx := nth (nt_of s) doc_rules_must RNone.
+Definition comp_grammar : grammar := Eval vm_compute in
+  (map (fun nr => if Nat.eqb (fst nr) (nt_of "If") then if_restrict (snd nr) else snd nr)
+       (combine (seq 0 (List.length doc_rules_must)) doc_rules_must)
+   ++ [closed_rule; block_body (rule_of "Let"); block_body (rule_of "Foreach")])%list.
+Lemma comp_sub_ok : sub_grammar_ok doc_rules_must comp_grammar comp_phi 40 = true.
+Proof. vm_compute. reflexivity. Qed.
 
 Definition comp_mode (f : nat) : option nat :=
   match find (fun e => String.eqb (fst e) (fn_name f)) comp_functions with
@@ -42,13 +76,10 @@ Definition comp_mode (f : nat) : option nat :=
   | None => None
   end.
 Definition comp_inl (f : nat) : bool := existsb (String.eqb (fn_name f)) comp_inline_names.
-Definition comp_blanked : list nat := flat_map (fun s => match nt_index s with Some n => [n] | None => [] end) comp_blanked_names.
-Definition comp_grammar : grammar := Eval vm_compute in blank comp_blanked doc_rules_must.
 Definition comp_tabs_v : tabs := Eval vm_compute in comp_tabs comp_grammar.
-(** FOLLOW sets: the least solution for the if-free grammar, seeded with the tokens that follow in the emptied rule of If
-    (`if` after a statement, `then` after a value; `else` cannot be admitted: dangling else) *)
-Definition comp_follow_seed : list (string * list TokenKind) :=
-  [ ("Statement", [T_If]); ("MultiClassStatement", [T_If]); ("Value", [T_Then]) ].
+(** FOLLOW sets: the least solution for [comp_grammar], seeded with the end of input (T_Eof stands for "no token left")
+    after SourceFile *)
+Definition comp_follow_seed : list (string * list TokenKind) := [ ("SourceFile", [T_Eof]) ].
 Definition comp_follow_init : list (list TokenKind) :=
   map (fun n => flat_map (fun e => match nt_index (fst e) with Some m => if Nat.eqb m n then snd e else [] | None => [] end) comp_follow_seed)
       (seq 0 (List.length comp_grammar)).
@@ -75,43 +106,41 @@ Proof. vm_compute. reflexivity. Qed.
 Close Scope string_scope.
 
 Theorem comp_complete_tok : forall m f, In (m, f) comp_covered ->
-  forall w, derives comp_grammar m w -> forall k rest e, In k (comp_followers m) ->
+  forall w, derives comp_grammar m w -> forall tail e, In (hdT tail) (comp_followers m) ->
   exists n0, forall n, n0 <= n ->
-    texec n grammar_prog (ECall f None) [] (mk_ts (w ++ k :: rest) e) = TVal (VB true) [] (mk_ts (k :: rest) e).
+    texec n grammar_prog (ECall f None) [] (mk_ts (w ++ tail) e) = TVal (VB true) [] (mk_ts tail e).
 Proof.
-  intros m f Hin w Hd k rest e Hk.
+  intros m f Hin w Hd tail e Hk.
   unfold comp_covered in Hin. apply in_flat_map in Hin as (f0 & Hf0 & Hin).
   destruct (nth f0 comp_mode_v None) as [m0|] eqn:E; [|contradiction]. destruct Hin as [Hin|[]]. inversion Hin. subst m0 f0.
   apply in_seq in Hf0.
-  destruct (check_complete_sound comp_grammar grammar_prog comp_cert comp_fuel comp_check m f w E ltac:(lia) Hd k rest e [] Hk) as (n0 & H).
+  destruct (check_complete_sound comp_grammar grammar_prog comp_cert comp_fuel comp_check m f w E ltac:(lia) Hd tail e [] Hk) as (n0 & H).
   exists n0. intros n Hn. rewrite (texec_fuel grammar_prog n0 _ _ _ ltac:(rewrite H; exact I) n Hn). exact H.
 Qed.
 
-(** the same for the full parser model *)
+(** the same for the full parser model; [tail] may be empty (end of input) *)
 Theorem comp_complete_model : forall m f, In (m, f) comp_covered ->
-  forall w, derives comp_grammar m w -> forall k rest, In k (comp_followers m) ->
-  exists n0, forall n s, n0 <= n -> Toks s (w ++ k :: rest) -> after_err s = false ->
+  forall w, derives comp_grammar m w -> forall tail, In (hdT tail) (comp_followers m) ->
+  forall s, Toks s (w ++ tail) -> after_err s = false ->
+  exists n0, forall n, n0 <= n ->
     match gexec n grammar_prog (ECall f None) [] s with
     | RPanic => True
-    | RVal v _ s' => v = VB true /\ Toks s' (k :: rest) /\ nerr s' = nerr s /\ after_err s' = false
+    | RVal v _ s' => v = VB true /\ Toks s' tail /\ nerr s' = nerr s /\ after_err s' = false
     | _ => False
     end.
 Proof.
-  intros m f Hin w Hd k rest Hk.
-  (* the fuel bound does not depend on the error count: take the one for 0 and use the frame theorem? no: texec_fuel per e *)
-  destruct (comp_complete_tok m f Hin w Hd k rest 0 Hk) as (n0 & H0).
-  exists n0. intros n s Hn HT Ha.
-  assert (R0 : TR s (mk_ts (w ++ k :: rest) (nerr s))) by (repeat split; auto).
-  (* transport the run from error count 0 to nerr s with the frame theorem (d = nerr s, no appended tokens) *)
-  pose proof (H0 n Hn) as Ht.
-  pose proof (frame_done grammar_prog [] (nerr s) n (ECall f None) [] (mk_ts (w ++ k :: rest) 0) (VB true) [] (mk_ts (k :: rest) 0) Ht ltac:(discriminate)) as F.
-  unfold frame, mk_ts in F. cbn [tks terr tafter Nat.add] in F. rewrite !app_nil_r in F.
-  exact (refine_done grammar_prog n (ECall f None) s (mk_ts (w ++ k :: rest) (nerr s)) (mk_ts (k :: rest) (nerr s)) R0 F).
+  intros m f Hin w Hd tail Hk s HT Ha.
+  destruct (comp_complete_tok m f Hin w Hd tail (nerr s) Hk) as (n0 & H0).
+  exists n0. intros n Hn.
+  assert (R0 : TR s (mk_ts (w ++ tail) (nerr s))) by (repeat split; auto).
+  exact (refine_done grammar_prog n (ECall f None) s (mk_ts (w ++ tail) (nerr s)) (mk_ts tail (nerr s)) R0 (H0 n Hn)).
 Qed.
 
-(** words of the if-free grammar are words of the documented grammar *)
-Lemma comp_grammar_sub n w : derives comp_grammar n w -> derives doc_rules_must n w.
-Proof. unfold derives. apply (blank_sub comp_blanked doc_rules_must). Qed.
+(** words of the restricted grammar are words of the documented grammar *)
+Lemma comp_grammar_sub n w : derives comp_grammar n w -> derives doc_rules_must (comp_phi n) w.
+Proof. unfold derives. intros H. exact (sub_grammar_sound doc_rules_must comp_grammar comp_phi 40 comp_sub_ok _ _ H). Qed.
+Lemma comp_phi_id : forallb (fun n => Nat.eqb (comp_phi n) n) (seq 0 (List.length doc_rules_must)) = true.
+Proof. vm_compute. reflexivity. Qed.
 
 (** nonterminals that cannot reach `If`: for them the theorem holds for the documented grammar itself *)
 Definition mentions (R : list nat) (r : rx) : bool := existsb (fun m => existsb (Nat.eqb m) R) (rx_nts r).
@@ -120,37 +149,55 @@ Definition reach_step (G : grammar) (R : list nat) : list nat :=
               (seq 0 (List.length G)).
 Definition comp_iffree : list nat :=
   Eval vm_compute in
-    let R := iter (List.length doc_rules_must) (reach_step doc_rules_must) comp_blanked in
+    let R := iter (List.length doc_rules_must) (reach_step doc_rules_must) [nt_of "If"] in
     filter (fun n => negb (existsb (Nat.eqb n) R)) (seq 0 (List.length doc_rules_must)).
 Lemma comp_iffree_closed : nts_closed doc_rules_must comp_iffree = true.
 Proof. vm_compute. reflexivity. Qed.
-Lemma comp_iffree_disjoint : forallb (fun n => negb (existsb (Nat.eqb n) comp_blanked)) comp_iffree = true.
+Lemma comp_iffree_agree : rules_agree doc_rules_must comp_grammar comp_iffree = true.
 Proof. vm_compute. reflexivity. Qed.
 Lemma comp_iffree_keep n w : In n comp_iffree -> derives doc_rules_must n w -> derives comp_grammar n w.
 Proof.
   intros Hn Hd. unfold derives in *.
-  apply (blank_keep comp_blanked doc_rules_must comp_iffree comp_iffree_closed); auto.
-  - intros m Hm. pose proof comp_iffree_disjoint as D. rewrite forallb_forall in D. specialize (D m Hm). now apply negb_true_iff in D.
-  - intros m [<-|[]]. exact Hn.
+  apply (agree_keep doc_rules_must comp_grammar comp_iffree comp_iffree_closed comp_iffree_agree); auto.
+  intros m [<-|[]]. exact Hn.
 Qed.
 
 Theorem comp_complete_doc : forall m f, In (m, f) comp_covered -> In m comp_iffree ->
-  forall w, derives doc_rules_must m w -> forall k rest, In k (comp_followers m) ->
-  exists n0, forall n s, n0 <= n -> Toks s (w ++ k :: rest) -> after_err s = false ->
+  forall w, derives doc_rules_must m w -> forall tail, In (hdT tail) (comp_followers m) ->
+  forall s, Toks s (w ++ tail) -> after_err s = false ->
+  exists n0, forall n, n0 <= n ->
     match gexec n grammar_prog (ECall f None) [] s with
     | RPanic => True
-    | RVal v _ s' => v = VB true /\ Toks s' (k :: rest) /\ nerr s' = nerr s /\ after_err s' = false
+    | RVal v _ s' => v = VB true /\ Toks s' tail /\ nerr s' = nerr s /\ after_err s' = false
     | _ => False
     end.
 Proof.
   intros m f Hin Hfree w Hd. apply comp_complete_model; auto. now apply comp_iffree_keep.
 Qed.
 
+(** whole files: every if-free sentence of the documented grammar, from any parser state whose upcoming tokens are the
+    sentence followed by the end of input *)
+Definition nt_SourceFile : nat := match nt_index "SourceFile"%string with Some m => m | None => 0 end.
+Lemma source_file_covered : In (nt_SourceFile, grammar_entry) comp_covered /\ In T_Eof (comp_followers nt_SourceFile).
+Proof. vm_compute. tauto. Qed.
+Theorem comp_complete_file : forall w, derives comp_grammar nt_SourceFile w ->
+  forall s, Toks s w -> after_err s = false ->
+  exists n0, forall n, n0 <= n ->
+    match gexec n grammar_prog (ECall grammar_entry None) [] s with
+    | RPanic => True
+    | RVal v _ s' => v = VB true /\ Toks s' [] /\ nerr s' = nerr s /\ after_err s' = false
+    | _ => False
+    end.
+Proof.
+  intros w Hd s HT Ha. destruct source_file_covered as [Hc Hf].
+  apply (comp_complete_model nt_SourceFile grammar_entry Hc w Hd [] Hf s); auto. now rewrite app_nil_r.
+Qed.
+
 (** which nonterminals are covered for the documented grammar itself / only for the if-free grammar *)
 Definition comp_covered_doc_names : list string :=
-  map (fun mf => nth (fst mf) doc_nt_names ""%string) (filter (fun mf => existsb (Nat.eqb (fst mf)) comp_iffree) comp_covered).
+  map (fun mf => nth (fst mf) comp_nt_names ""%string) (filter (fun mf => existsb (Nat.eqb (fst mf)) comp_iffree) comp_covered).
 Definition comp_covered_iffree_only_names : list string :=
-  map (fun mf => nth (fst mf) doc_nt_names ""%string) (filter (fun mf => negb (existsb (Nat.eqb (fst mf)) comp_iffree)) comp_covered).
+  map (fun mf => nth (fst mf) comp_nt_names ""%string) (filter (fun mf => negb (existsb (Nat.eqb (fst mf)) comp_iffree)) comp_covered).
 
 (** non-vacuity *)
 Ltac dnt := eapply MNT; [vm_compute; reflexivity|].
@@ -176,3 +223,41 @@ Proof.
     + dnt. apply MAltL. constructor.
     + dnt. apply MAltL. tok.
 Qed.
+
+(** ... and for the parse function itself: a text whose token sequence (no leading trivia, no lexical error) is an if-free
+    sentence of the documented grammar is parsed with ZERO errors (or the model panics: excluded by C02) *)
+Theorem comp_complete_parse : forall txt w, Toks (p_new txt) w -> derives comp_grammar nt_SourceFile w ->
+  exists n0, forall n, n0 <= n ->
+    parse_with n grammar_prog grammar_entry txt = ParsePanic \/
+    exists t st, parse_with n grammar_prog grammar_entry txt = ParseOk t [] st.
+Proof.
+  intros txt w HT Hd. destruct (p_new_init txt) as (E1 & E2 & _).
+  destruct (comp_complete_file w Hd (p_new txt) HT E2) as (n0 & H). exists n0. intros n Hn. specialize (H n Hn).
+  unfold parse_with. destruct (gexec n grammar_prog (ECall grammar_entry None) [] (p_new txt)) as [v en s'| | | |]; try contradiction; auto.
+  destruct H as (_ & _ & Hne & _). unfold nerr in Hne. rewrite E1 in Hne. cbn in Hne.
+  unfold p_finish. destruct (b_finish (bld s')) as [t|]; auto. right. exists t, s'.
+  destruct (errs s'); [reflexivity|discriminate Hne].
+Qed.
+
+(** non-vacuity of the hypotheses of [comp_complete_parse] *)
+Ltac toks_step :=
+  first [ apply Toks_nil; vm_compute; reflexivity
+        | apply Toks_cons; [vm_compute; reflexivity|discriminate|discriminate|reflexivity|];
+          let s' := fresh "s" in let H := fresh "H" in intros s' H; vm_compute in H; inversion H; subst s'; clear H ].
+Definition comp_example_text : list N := Eval vm_compute in map (fun a => N.of_nat (Ascii.nat_of_ascii a)) (list_ascii_of_string "def x;"%string).
+Example comp_example_toks : Toks (p_new comp_example_text) ([T_Def] ++ [T_Id] ++ [T_Semi]).
+Proof. cbn [app]. repeat toks_step. Qed.
+Example comp_example_sentence : derives comp_grammar nt_SourceFile ([T_Def] ++ [T_Id] ++ [T_Semi]).
+Proof.
+  assert (D : derives comp_grammar (match nt_index "Def"%string with Some m => m | None => 0 end) ([T_Def] ++ [T_Id] ++ [T_Semi])).
+  { apply comp_iffree_keep; [vm_compute; tauto|exact comp_def_word]. }
+  unfold derives in *. eapply MNT; [vm_compute; reflexivity|]. eapply MNT; [vm_compute; reflexivity|].
+  rewrite <- (app_nil_r ([T_Def] ++ [T_Id] ++ [T_Semi])). apply MStarS; [|constructor].
+  eapply MNT; [vm_compute; reflexivity|]. do 3 apply MAltR. apply MAltL. exact D.
+Qed.
+
+(** order-insensitive comparison (the order of the computed lists follows the order of the functions in the sources) *)
+Definition same_strings (a b : list string) : bool :=
+  forallb (fun x => existsb (String.eqb x) b) a && forallb (fun x => existsb (String.eqb x) a) b.
+Definition same_kinds (a b : list TokenKind) : bool :=
+  forallb (fun x => kset_mem x b) a && forallb (fun x => kset_mem x a) b.
